@@ -59,6 +59,8 @@ class Runner(object):
             out = 'RecursionError'
             acc.violation('RecursionError@' + qn, 'RecursionError while parsing',
                           {'cls': qn, 'entry': entry, 'data': data, 'family': tag})
+        except core.Timeout:
+            raise
         except BaseException as e:  # noqa
             sig = leak_signature(e)
             out = sig
@@ -184,6 +186,8 @@ def _extra_entry_points(r, thorough):
             fn(data)
         except doc:
             pass
+        except core.Timeout:
+            raise
         except BaseException as e:  # noqa
             acc.violation(leak_signature(e), '%s escapes %s: %s' % (core.ename(e), label, str(e)[:120]),
                           {'extra': label, 'data': data, 'family': tag})
@@ -284,6 +288,8 @@ def replay(ctx, w):
             fn(data)
         except r.doc:
             return None
+        except core.Timeout:
+            raise
         except BaseException as e:  # noqa
             return {'signature': leak_signature(e), 'what': repr(e)[:200], 'witness': w}
         return None
